@@ -25,6 +25,8 @@ func runC16(c *ShardCtx) {
 	leaves := []*peg.Expr{peg.Lit("a"), peg.Lit(""), peg.Cls(false, false, "a", "b"), peg.Any()}
 	en := peg.NewEnumerator(peg.Alphabet{Leaves: leaves, Unary: allUnary, Seq: true, Choice: true, MaxArity: 2})
 	inputs := peg.Inputs([]string{"a", "b"}, l)
+	// an invalid byte (default mode: an 'invalid encoding' error is on record when the budget runs out)
+	inputs = append(inputs, []byte("\xff"), []byte("a\xff"), []byte("\xffa"), []byte("ab\xff"))
 	var optSets []rtapi.RunOpts
 	for m := 0; m < 16; m++ {
 		if !c.Thorough() && m&8 != 0 {
